@@ -627,12 +627,12 @@ class Scn:
             # schedule-independent identity: what let the second launch through
             if twice:
                 # which scenario / how many deviations exposed it does not identify this failure
-                p.violation({"clause": "launched-more-than-once", "backend": d["backend"],
-                             "cause": "two-claims-of-one-run-id-succeeded", "_no_windows": True},
-                            dict(detail, scenario=d["scenario"]), {})
+                self._classified(p, {"clause": "launched-more-than-once", "backend": d["backend"],
+                                     "cause": "two-claims-of-one-run-id-succeeded", "_no_windows": True},
+                                 dict(detail, scenario=d["scenario"]))
             else:
-                p.violation({"clause": "launched-more-than-once", **base, "cause": "launch-without-own-claim",
-                             "_no_windows": True}, detail, {})
+                self._classified(p, {"clause": "launched-more-than-once", **base, "cause": "launch-without-own-claim",
+                                     "_no_windows": True}, detail)
             return
         if nO < nE:
             p.violation({"clause": "occurrence-not-launched", **base}, detail, {})
@@ -642,6 +642,21 @@ class Scn:
             return
         if ex.pending_after:
             p.violation({"clause": "occurrence-still-pending-after-its-launch", **base}, detail, {})
+
+
+    @staticmethod
+    def _classified(p: Partial, sig: dict, detail: dict) -> None:
+        """A violation whose signature is schedule independent is recorded once per unit of work (a subtree
+        of schedules) and counted afterwards: the glue stops a subtree after a few recorded violations,
+        and the rest of the subtree must still be explored when this one is a recorded finding."""
+        from vf.report import canon
+
+        key = canon(sig)
+        p.count("executions_with_classified_violation")
+        if key in p.sets.get("classified_violations", ()):
+            return
+        p.add("classified_violations", key)
+        p.violation(sig, detail, {})
 
 
 def build(desc: dict) -> Scn:
